@@ -130,6 +130,18 @@ template<class TT, class... I> static void bounds_line(const char* kind, const c
 template<size_t... D> struct Dims {};
 template<class F> static void for_indices(int rank, const size_t* dims, unsigned seed, int count, F f) {
     uint32_t s = seed * 2654435761u + 12345u;
+    // systematically: every axis at each boundary value (-d-1, -d, -1, 0, d-1, d, d+1) with the other indices in range
+    for (int ax = 0; ax < rank; ++ax) {
+        const int d = (int)dims[ax];
+        const int edge[] = {-d - 1, -d, -1, 0, d - 1, d, d + 1};
+        for (int v : edge) {
+            int idx[6];
+            for (int k = 0; k < rank; ++k) { int dk = (int)dims[k]; idx[k] = (int)(lcg(s) % (2 * dk)) - dk; }     // -dk .. dk-1: in range
+            idx[ax] = v;
+            const bool ok = (v >= 0 && v < d) || (v < 0 && v + d >= 0);
+            if (VG_CHK || ok) f(idx);
+        }
+    }
     for (int c = 0; c < count; ++c) {
         int idx[6]; bool ok = true;
         for (int k = 0; k < rank; ++k) {
@@ -200,12 +212,9 @@ static void run_helpers() {
     run_three();
 #ifdef FASTOR_SSE2_IMPL
     run_maskfree<float, simd_abi::sse>(); run_maskfree<double, simd_abi::sse>(); run_maskfree<int, simd_abi::sse>(); run_maskfree<Int64, simd_abi::sse>();
-    // (without AVX-512 masks the member fallbacks are dead code - no kernel calls them - and the integer ones type-pun
-    //  the register through int*, so only the float / double fallbacks are measured; they document the zeroing mask_store)
+    // (without AVX-512 masks the member functions are the fallback loops: dead code as far as the kernels go, measured anyway)
     run_member<float, simd_abi::sse>(); run_member<double, simd_abi::sse>();
-#ifdef FASTOR_HAS_AVX512_MASKS
     run_member<int, simd_abi::sse>(); run_member<Int64, simd_abi::sse>();
-#endif
 #endif
 #ifdef FASTOR_AVX_IMPL
     run_maskfree<float, simd_abi::avx>(); run_maskfree<double, simd_abi::avx>();
@@ -213,11 +222,119 @@ static void run_helpers() {
 #endif
 #ifdef FASTOR_AVX2_IMPL
     run_maskfree<int, simd_abi::avx>(); run_maskfree<Int64, simd_abi::avx>();
-#ifdef FASTOR_HAS_AVX512_MASKS
     run_member<int, simd_abi::avx>(); run_member<Int64, simd_abi::avx>();
-#endif
 #endif
 #ifdef FASTOR_AVX512F_IMPL
     run_member<float, simd_abi::avx512>(); run_member<double, simd_abi::avx512>(); run_member<int, simd_abi::avx512>(); run_member<Int64, simd_abi::avx512>();
+#endif
+}
+
+// ---- kern3: operand hulls and write sets of the fixed-size intrinsic kernels (model: Model/Kern3.lean) -----------------
+// Every operand lives in its own guard region.  For operand i the kernel is run with exactly k of its elements
+// accessible below the high guard (k = 0, 1, …): the smallest k without a fault is the highest offset touched + 1;
+// likewise the largest j such that hiding the first j elements in the low guard does not fault is the lowest offset.
+// The result operand is pre-filled with a sentinel: the elements that changed are the write set.
+struct KOp { size_t n; bool out; int diag; };
+template<class T, class F> static void kern_line(const char* name, int K, const KOp* ops, int nops, F f) {
+    T* p[MAXOPS];
+    for (int i = 0; i < nops; ++i) g_reg[i].init();
+    auto place_mid = [&](int i) { p[i] = (T*)(g_reg[i].lo + 8192); };
+    auto fill = [&](int i) {
+        uint32_t s = 77u + 13u * i;
+        for (long k = -16; k < (long)ops[i].n + 16; ++k) p[i][k] = ops[i].out ? T(12345.678) : Filler<T>::make(s);
+        if (ops[i].diag) for (int d = 0; d < ops[i].diag; ++d) p[i][d * ops[i].diag + d] = T(5 * ops[i].diag + d);
+    };
+    long lo[3] = {1000000, 1000000, 1000000}, hi[3] = {0, 0, 0};
+    for (int i = 0; i < nops; ++i) {
+        long H = -1, L = -1;
+        for (long k = 0; k <= (long)ops[i].n + 16; ++k) {
+            for (int j = 0; j < nops; ++j) { place_mid(j); fill(j); }
+            T* q = (T*)(g_reg[i].hi - (size_t)k * sizeof(T));
+            // copy the first min(k,n) elements so that the data are the same in every run
+            for (long e = 0; e < k && e < (long)ops[i].n; ++e) q[e] = p[i][e];
+            for (long e = (long)ops[i].n; e < k; ++e) q[e] = p[i][e];
+            p[i] = q;
+            T* const* pp = p;
+            if (protect([&] { f(pp); asm volatile("" ::: "memory"); }) == 0) { H = k; break; }
+        }
+        for (long j = (long)ops[i].n; j >= 0; --j) {
+            for (int jj = 0; jj < nops; ++jj) { place_mid(jj); fill(jj); }
+            T* q = (T*)(g_reg[i].lo - (size_t)j * sizeof(T));
+            for (long e = j; e < (long)ops[i].n + 16; ++e) q[e] = p[i][e];
+            p[i] = q;
+            T* const* pp = p;
+            if (protect([&] { f(pp); asm volatile("" ::: "memory"); }) == 0) { L = j; break; }
+        }
+        // H = 0 means nothing of the operand is touched; the model prints LO=1000000 HI=0 for that
+        hi[i] = H; lo[i] = (H == 0) ? 1000000 : L;
+    }
+    // write set
+    unsigned long wrmask = 0; bool stray = false;
+    for (int j = 0; j < nops; ++j) { place_mid(j); fill(j); }
+    { T* const* pp = p; f(pp); }
+    for (int i = 0; i < nops; ++i) {
+        uint32_t s = 77u + 13u * i;
+        for (long k = -16; k < (long)ops[i].n + 16; ++k) {
+            T expect = ops[i].out ? T(12345.678) : Filler<T>::make(s);
+            if (ops[i].diag && k >= 0 && k < (long)ops[i].n && (k / ops[i].diag == k % ops[i].diag)) expect = T(5 * ops[i].diag + k / ops[i].diag);
+            if (p[i][k] != expect) { if (ops[i].out && k >= 0 && k < 64) wrmask |= 1ul << k; else stray = true; }
+        }
+    }
+    const int oi = nops - 1;   // by convention the result is the last operand (if any is `out`)
+    std::printf("kern3 k=%s branch=%s avx2=%d K=%d cfg=%s T=%s | ALO=%ld AHI=%ld", name, VG_BRANCH,
+#ifdef FASTOR_AVX2_IMPL
+        1,
+#else
+        0,
+#endif
+        K, CFGNAME, tname<T>::s(), lo[0], hi[0]);
+    if (nops >= 2 && !ops[1].out) std::printf(" BLO=%ld BHI=%ld", lo[1], hi[1]);
+    if (ops[oi].out) std::printf(" OLO=%ld OHI=%ld WR=%lu", lo[oi], hi[oi], wrmask);
+    std::printf(" ORACLE=%s\n", stray ? "FAIL" : "ok");
+}
+
+template<class T, size_t K> static void kern_matmul3K3() {
+    KOp ops[] = {{3 * K, false, 0}, {3 * K, false, 0}, {9, true, 0}};
+    kern_line<T>("matmul3K3", (int)K, ops, 3, [](T* const* p) { Fastor::_matmul<T, 3, K, 3>(p[0], p[1], p[2]); });
+}
+template<class T> static void run_kern3_T(bool isfloat) {
+    { KOp ops[] = {{9, false, 0}, {9, false, 0}, {9, true, 0}};
+      kern_line<T>("matmul333", 3, ops, 3, [](T* const* p) { Fastor::_matmul<T, 3, 3, 3>(p[0], p[1], p[2]); }); }
+    { KOp ops[] = {{9, false, 0}, {3, false, 0}, {3, true, 0}};
+      kern_line<T>("matvec331", 3, ops, 3, [](T* const* p) { Fastor::_matmul<T, 3, 3, 1>(p[0], p[1], p[2]); }); }
+    kern_matmul3K3<T, 1>(); kern_matmul3K3<T, 2>(); kern_matmul3K3<T, 4>(); kern_matmul3K3<T, 5>(); kern_matmul3K3<T, 7>();
+#ifdef FASTOR_AVX_IMPL
+    { KOp ops[] = {{9, false, 0}};
+      kern_line<T>(isfloat ? "norm9f" : "norm9d", 3, ops, 1, [](T* const* p) { sink_val(Fastor::_norm<T, 9>(p[0])); });
+      kern_line<T>(isfloat ? "trace33f" : "trace33d", 3, ops, 1, [](T* const* p) { sink_val(Fastor::_trace<T, 3, 3>(p[0])); });
+      kern_line<T>("det33", 3, ops, 1, [](T* const* p) { sink_val(Fastor::_det<T, 3, 3>(p[0])); }); }
+    { KOp d[] = {{3, false, 0}, {3, false, 0}, {9, true, 0}};
+      kern_line<T>(isfloat ? "dyadic33f" : "dyadic33d", 3, d, 3, [](T* const* p) { Fastor::_dyadic<T, 3, 3>(p[0], p[1], p[2]); }); }
+    { KOp ops[] = {{9, false, 0}, {9, false, 0}};
+      kern_line<T>(isfloat ? "dc33f" : "dc33d", 3, ops, 2, [](T* const* p) { sink_val(Fastor::_doublecontract<T, 3, 3>(p[0], p[1])); }); }
+#endif
+}
+static void run_kern3() {
+#ifdef FASTOR_SSE2_IMPL
+    { KOp u[] = {{4, false, 2}, {4, true, 0}};
+      kern_line<float>("unary4f", 2, u, 2, [](float* const* p) { Fastor::_transpose<float, 2, 2>(p[0], p[1]); });
+      kern_line<float>("unary4f", 2, u, 2, [](float* const* p) { Fastor::_inverse<float, 2>(p[0], p[1]); });
+      kern_line<double>("unary4d", 2, u, 2, [](double* const* p) { Fastor::_inverse<double, 2>(p[0], p[1]); }); }
+    { KOp t4[] = {{16, false, 0}, {16, true, 0}};
+      kern_line<float>("transpose44f", 4, t4, 2, [](float* const* p) { Fastor::_transpose<float, 4, 4>(p[0], p[1]); }); }
+    { KOp t3[] = {{9, false, 0}, {9, true, 0}};
+      kern_line<double>("transpose33d", 3, t3, 2, [](double* const* p) { Fastor::_transpose<double, 3, 3>(p[0], p[1]); }); }
+    { KOp m2[] = {{4, false, 0}, {4, false, 0}, {4, true, 0}};
+      kern_line<float>("matmul222f", 2, m2, 3, [](float* const* p) { Fastor::_matmul<float, 2, 2, 2>(p[0], p[1], p[2]); }); }
+    { KOp m4[] = {{16, false, 0}, {16, false, 0}, {16, true, 0}};
+      kern_line<float>("matmul444f", 4, m4, 3, [](float* const* p) { Fastor::_matmul<float, 4, 4, 4>(p[0], p[1], p[2]); }); }
+    { KOp ops[] = {{9, false, 0}, {9, true, 0}};
+      kern_line<float>("transpose33", 3, ops, 2, [](float* const* p) { Fastor::_transpose<float, 3, 3>(p[0], p[1]); }); }
+    run_kern3_T<float>(true);
+#endif
+#ifdef FASTOR_AVX_IMPL
+    run_kern3_T<double>(false);
+    { KOp d2[] = {{2, false, 0}, {2, false, 0}, {4, true, 0}};
+      kern_line<float>("dyadic22f", 2, d2, 3, [](float* const* p) { Fastor::_dyadic<float, 2, 2>(p[0], p[1], p[2]); }); }
 #endif
 }
